@@ -283,7 +283,11 @@ func (x *Exec) havocLoop(st *State, fr *Frame, to *ssa.BasicBlock, li *loopInfo)
 		}
 	}
 	// effect ghosts (call counters, last arguments) of everything the loop body may call
+	canonNames := map[string]bool{}
 	for name := range x.loopCallNames(fr, to.Index, li) {
+		canonNames[canonCall(name)] = true
+	}
+	for name := range canonNames {
 		k := "ncalls:" + name
 		old := st.ghost[k]
 		if old == nil {
